@@ -19,6 +19,7 @@ import (
 	"io"
 	"math/rand/v2"
 	"strings"
+	"sync"
 	"testing"
 	"time"
 
@@ -129,6 +130,7 @@ type c15World struct {
 	samples  [][6][]time.Duration
 	punished []bool // a non-forced failure was ever reported for the node: recovery penalty may be non-zero
 	prev     map[*dialer.AliveDialerSet]c15Prev
+	cbMu     sync.Mutex // the concurrent class gets callbacks from several goroutines
 	cb       [][6]int // alive-change callback invocations per group and type (recorded, not judged)
 	count    func(string)
 	distinct func(string)
@@ -172,7 +174,9 @@ func c15NewWorld(h *c15Hist) *c15World {
 		gi := gi
 		g := NewDialerGroup(opt, fmt.Sprintf("g%d", gi), ds, annos, p, func(alive bool, nt *dialer.NetworkType, isInit bool) {
 			if !isInit && nt != nil {
+				w.cbMu.Lock()
 				w.cb[gi][c15TypeIndex(nt)]++
+				w.cbMu.Unlock()
 			}
 		})
 		w.groups = append(w.groups, g)
@@ -946,7 +950,8 @@ func TestVerifC15(t *testing.T) {
 	m.Assume("'recorded alive' is the node's own per-type record (Dialer.MustGetAlive); the alive sets are additionally required to agree with it after every event",
 		"'sort' is dae's own cached sorting latency (it contains an undocumented recovery penalty after failures); measurement+add_latency is recomputed independently (min: last sample, min_avg10: mean of last <=10) only for nodes that never saw a non-forced failure; min_moving_avg's recurrence is read from the node",
 		"latency samples enter through c15_verif_bridge.go VerifProbeSuccess = the two calls Dialer.check makes after a successful probe (markAvailable, informDialerGroupUpdate); Dialer.check itself measures wall-clock time and is not driven",
-		"ties (equal sorting latencies) and picks without a measurement are counted, not judged; single goroutine (the property quantifies over histories, not schedules)",
+		"ties (equal sorting latencies) and picks without a measurement are counted, not judged; the generated histories run on a single goroutine",
+		"concurrent class (c15_concurrent_verif_test.go): reports from several goroutines and run-time policy switches are released together and judged only at quiescence (all goroutines returned, no timing): the set's sorting latency of every alive node must equal the node's own current measure under the policy in force + add_latency, and the selected node must not be beaten by the tolerance or more on the nodes' own measures; only samples, forced deaths and traffic revivals are reported there, so the recovery penalty is zero",
 		"dae has three latency policies (min, min_avg10, min_moving_avg) plus fixed and random; the property text says four")
 	r := vk.NewRand(0xC15)
 	n := vk.Scale(2000, 60000)
@@ -983,6 +988,7 @@ func TestVerifC15(t *testing.T) {
 		m.Violation(v2.Sig, v2.What, map[string]any{"nodes": mh.Nodes, "groups": mh.Groups, "events": evs, "failing_step": v2.Step,
 			"detail": v2.Detail, "history": mh, "original_events": len(h.Ev)})
 	}
+	c15ConcurrentClass(m, vk.NewRand(0xC15C))
 	m.Require("select/random", "select/fixed", "select/min", "select/min_avg10", "select/min_moving_avg",
 		"select_level/primary", "select_level/dnsudp", "select_level/tcp", "select_level/otherfamily-primary", "select_level/otherfamily-dnsudp", "select_level/otherfamily-tcp",
 		"select_noalive_reported", "select_single_node_last_resort", "select_with_member_excluded", "select_min_relation_checked", "select_min_best_is_excluded_next_best_taken",
